@@ -254,6 +254,10 @@ class YncaConnection:
         except serial.SerialException as e:
             raise YncaConnectionError(e)
         except RuntimeError as e:
+            # The connection got lost before it was completely setup, the reader thread is already done.
+            # Nobody else will close the port, so do it here.
+            if self._serial:
+                self._serial.close()
             raise YncaConnectionFailed(e)
 
     def close(self):
